@@ -689,7 +689,7 @@ theorem copyRef_nonaddr (fuel : Nat) (h : Heap) (k : String) (r : Ref) (hr : ∀
        · rfl)
 
 theorem copyItems_lookup (fuel : Nat) (items items' : Items) (h h' : Heap)
-    (hc : copyItems (copyRef (fuel + 1)) h items = (h', .ok items')) (key : String) :
+    (hc : copyItems (copyRef (fuel + 1)) h items = (h', .ok items')) (key : String) (hkey : key ≠ "infos") :
     (lookup key items = none → lookup key items' = none) ∧
     (∀ r, (∀ a, r ≠ .addr a) → lookup key items = some r → lookup key items' = some r) := by
   induction items generalizing h h' items' with
@@ -697,6 +697,11 @@ theorem copyItems_lookup (fuel : Nat) (items items' : Items) (h h' : Heap)
   | cons kv rest ih =>
     obtain ⟨k0, v⟩ := kv
     unfold copyItems at hc
+    split at hc
+    · rename_i hk
+      have hne : ¬ k0 = key := by intro he; exact hkey (he ▸ hk)
+      simp [lookup, hne]
+      exact ih items' h h' hc
     split at hc
     · simp at hc
     · rename_i h1 v' he
@@ -714,6 +719,29 @@ theorem copyItems_lookup (fuel : Nat) (items items' : Items) (h h' : Heap)
           rw [copyRef_nonaddr fuel h k0 v hr] at he
           simp at he; exact he.2.symm
         · simp [lookup, hk]; exact ihr
+
+/-- /repo a12f060: whatever the first-level values are copied with, the dict `copy()` builds has no `infos` entry -/
+theorem copyItems_no_infos {cp : Heap → String → Ref → Res Ref} (items items' : Items) (h h' : Heap)
+    (hc : copyItems cp h items = (h', .ok items')) : lookup "infos" items' = none := by
+  induction items generalizing h h' items' with
+  | nil => simp [copyItems] at hc; rw [hc.2]; simp [lookup]
+  | cons kv rest ih =>
+    obtain ⟨k0, v⟩ := kv
+    unfold copyItems at hc
+    by_cases hk : k0 = "infos"
+    · simp only [hk, if_true] at hc
+      exact ih items' h h' hc
+    · simp only [hk, if_false] at hc
+      split at hc
+      · simp at hc
+      · rename_i h1 v' he
+        split at hc
+        · simp at hc
+        · rename_i h2 rest' he2
+          simp at hc
+          rw [← hc.2]
+          simp [lookup, hk]
+          exact ih rest' h1 h2 he2
 
 theorem getSV_of_cells (h : Heap) (a b d : Nat) (o : Bool) (v : Val) (items : Items) (s : SV)
     (hc : h[a]? = some (.sv o b d)) (hb : h[b]? = some (.buf v)) (hd : h[d]? = some (.dict items))
@@ -849,6 +877,43 @@ theorem asSV_result (h h1 : Heap) (a n : Nat) (s sn : SV) (hs : getSV h a = some
         obtain ⟨hv, hit, ho, _⟩ := getSV_of_cells h1 _ _ _ _ _ _ sn c1 c2 c3 hn
         exact ⟨hv, ho, h0, items', hci, by rw [hit, hi]⟩
 
+/- History: until /repo commit a12f060 `copy()` handed the `Infos` helper kept under `infos` (it has no `copy`) over to the new object:
+   the copy — and everything built on `copy()` — held a helper bound to the ORIGINAL (open finding C15-copy-hands-over-infos-helper,
+   witness `copy_hands_over_infos_entry`, now a regression witness). -/
+/-- clause "a copy shares no mutable data with the original", for the helper object a getter keeps in `_data`: the object `copy()`
+returns has no `infos` entry at all — no cell of it refers to the original through a helper; its getter builds its own (`getInfos_own`).
+For every heap, whatever was read before -/
+theorem copy_drops_infos (h h1 : Heap) (a n : Nat) (s' : SV) (hr : copySV h a = (h1, .ok n)) (hg : getSV h1 n = some s') :
+    lookup "infos" s'.items = none := by
+  obtain ⟨_, _, _, _, s, items', h0, _, hc, _, hi, _⟩ := copySVWith_getSV (copyRef_ok _) h h1 a n s' hr hg
+  rw [hi]
+  exact copyItems_no_infos s.items items' h h0 hc
+
+theorem lookup_erase_none (k k' : String) (items : Items) (hl : lookup k' items = none) : lookup k' (erase k items) = none := by
+  induction items with
+  | nil => simp [erase, lookup]
+  | cons kv rest ih =>
+    obtain ⟨k2, v2⟩ := kv
+    by_cases h2 : k2 = k'
+    · simp [lookup, h2] at hl
+    · simp [lookup, h2] at hl
+      by_cases h : k2 = k
+      · simp [erase, h, hl]
+      · simp [erase, h, lookup, h2, ih hl]
+
+/-- the same for the Orbit `as_orbit` builds and the StateVector `as_statevector` builds -/
+theorem asOrbit_drops_infos (h h1 : Heap) (a p n : Nat) (s sn : SV) (hs : getSV h a = some s)
+    (hr : asOrbit h a p = (h1, .ok n)) (hn : getSV h1 n = some sn) : lookup "infos" sn.items = none := by
+  obtain ⟨_, _, hc, items', hci, hit⟩ := asOrbit_result h h1 a p n s sn hs hr hn
+  rw [hit, lookup_insert_ne _ _ _ _ (by decide)]
+  exact copyItems_no_infos s.items items' h hc hci
+
+theorem asSV_drops_infos (h h1 : Heap) (a n : Nat) (s sn : SV) (hs : getSV h a = some s)
+    (hr : asSV h a = (h1, .ok n)) (hn : getSV h1 n = some sn) : lookup "infos" sn.items = none := by
+  obtain ⟨_, _, hc, items', hci, hit⟩ := asSV_result h h1 a n s sn hs hr hn
+  rw [hit]
+  exact lookup_erase_none _ _ _ (copyItems_no_infos s.items items' h hc hci)
+
 /- History: before /repo commit 27f7ad7 `as_orbit` / `as_statevector` handed the receiver's `_data` values over as they
    were, so the statement was "exactly the same `_data` entries" (and `asOrbit_same_references`, the theorem behind the
    sharing finding). Now both go through `copy()`: mutable values come back as copies (their content is compared by
@@ -859,7 +924,7 @@ immutable `_data` entry (date, strings, numbers, form, frame …) is found under
 theorem as_orbit_as_statevector_id (h h1 h2 : Heap) (a p n m : Nat) (s s2 : SV) (hs : getSV h a = some s)
     (h1r : asOrbit h a p = (h1, .ok n)) (h2r : asSV h1 n = (h2, .ok m)) (hs2 : getSV h2 m = some s2) :
     s2.val = s.val ∧ s2.orbit = false ∧ s2.form = s.form ∧ s2.frame = s.frame ∧
-    ∀ key r, key ≠ "propagator" → (∀ x, r ≠ .addr x) → lookup key s.items = some r → lookup key s2.items = some r := by
+    ∀ key r, key ≠ "propagator" → key ≠ "infos" → (∀ x, r ≠ .addr x) → lookup key s.items = some r → lookup key s2.items = some r := by
   -- the intermediate Orbit exists because `asSV` succeeded on it
   have hsn : ∃ sn, getSV h1 n = some sn := by
     unfold asSV at h2r
@@ -869,11 +934,11 @@ theorem as_orbit_as_statevector_id (h h1 h2 : Heap) (a p n m : Nat) (s s2 : SV) 
   obtain ⟨sn, hsn⟩ := hsn
   obtain ⟨hv1, _, hc1, it1, hci1, hit1⟩ := asOrbit_result h h1 a p n s sn hs h1r hsn
   obtain ⟨hv2, ho2, hc2, it2, hci2, hit2⟩ := asSV_result h1 h2 n m sn s2 hsn h2r hs2
-  have hkey : ∀ key r, key ≠ "propagator" → (∀ x, r ≠ .addr x) → lookup key s.items = some r → lookup key s2.items = some r := by
-    intro key r hk hr hl
-    have l1 := (copyItems_lookup _ s.items it1 h hc1 hci1 key).2 r hr hl
+  have hkey : ∀ key r, key ≠ "propagator" → key ≠ "infos" → (∀ x, r ≠ .addr x) → lookup key s.items = some r → lookup key s2.items = some r := by
+    intro key r hk hki hr hl
+    have l1 := (copyItems_lookup _ s.items it1 h hc1 hci1 key hki).2 r hr hl
     have l2 : lookup key sn.items = some r := by rw [hit1, lookup_insert_ne _ _ _ _ hk]; exact l1
-    have l3 := (copyItems_lookup _ sn.items it2 h1 hc2 hci2 key).2 r hr l2
+    have l3 := (copyItems_lookup _ sn.items it2 h1 hc2 hci2 key hki).2 r hr l2
     rw [hit2, lookup_erase_ne _ _ _ hk]; exact l3
   have hf := getSV_form h a s hs
   have hf2 := getSV_form h2 m s2 hs2
@@ -883,14 +948,14 @@ theorem as_orbit_as_statevector_id (h h1 h2 : Heap) (a p n m : Nat) (s s2 : SV) 
       split at this
       · rename_i f hl; simp at this; subst this; exact hl
       · simp at this
-    have hl2 := hkey "form" _ (by decide) (by intro x; simp) hl
+    have hl2 := hkey "form" _ (by decide) (by decide) (by intro x; simp) hl
     have := hf2.1; unfold formOf at this; rw [hl2] at this; simp at this; exact this.symm
   · have hl : lookup "frame" s.items = some (.frame s.frame) := by
       have := hf.2; unfold frameOf at this
       split at this
       · rename_i f hl; simp at this; subst this; exact hl
       · simp at this
-    have hl2 := hkey "frame" _ (by decide) (by intro x; simp) hl
+    have hl2 := hkey "frame" _ (by decide) (by decide) (by intro x; simp) hl
     have := hf2.2; unfold frameOf at this; rw [hl2] at this; simp at this; exact this.symm
 
 /-! ## histories: any sequence of in-place operations on the copy -/
